@@ -315,6 +315,72 @@ def pickle_check(pydsdl, o) -> typing.Optional[str]:
     return None
 
 
+def nested_check(pydsdl, obj, desc) -> typing.Optional[str]:
+    """After the outer object has been compared / hashed: every nested type still has the Specification's layout
+    (querying an aggregate must not change what its members report)."""
+    k = desc[0]
+    try:
+        b = obj.bit_length_set
+        got = (b.min, b.max, tuple(sorted(b % 32)), tuple(sorted(b % 8)))
+    except TypeError:
+        return None
+    nodes: list = []
+    r = L.s_nodes(L.strip(desc), nodes)
+    exp = (B.o_min(nodes, r), B.o_max(nodes, r), tuple(sorted(B.o_res(nodes, r, 32))), tuple(sorted(B.o_res(nodes, r, 8))))
+    if got != exp:
+        return "nested %s reports (min, max, %%32, %%8) = %s, expected %s" % (obj, got, exp)
+    if k in ("farr", "varr"):
+        return nested_check(pydsdl, obj.element_type, desc[1])
+    if k == "delim":
+        return nested_check(pydsdl, obj.inner_type, desc[1])
+    if k in ("struct", "union"):
+        for f, fd in zip(obj.fields, desc[1]):
+            r2 = nested_check(pydsdl, f.data_type, fd)
+            if r2:
+                return r2
+    return None
+
+
+_CHILD = r"""
+import sys, json, pickle
+sys.path.insert(0, %r)
+sys.path.insert(0, %r)
+import common
+from suites import layout as L
+pydsdl = common.import_pydsdl()
+req = json.loads(sys.stdin.read())
+twin = L.build_impl(pydsdl, req["ty"], L._Names())
+obj = pickle.loads(bytes.fromhex(req["blob"]))
+print(json.dumps({"eq": bool(obj == twin and twin == obj), "hash_eq": hash(obj) == hash(twin), "in_set": obj in {twin}, "str_eq": str(obj) == str(twin)}))
+"""
+
+
+def cross_process_check(desc_ty, obj) -> typing.Optional[str]:
+    """Pickle here (after hashing), unpickle in a process with ANOTHER hash seed, compare with an independently built twin."""
+    import json
+    import os
+    import subprocess
+    import sys
+
+    hash(obj)
+    blob = pickle.dumps(obj).hex()
+    env = dict(os.environ)
+    env["PYTHONHASHSEED"] = "12345"
+    env["VERIF_REPO"] = str(common.REPO)
+    code = _CHILD % (str(common.REPO), str(Path(__file__).resolve().parent.parent))
+    try:
+        r = subprocess.run([sys.executable, "-c", code], input=json.dumps({"ty": desc_ty, "blob": blob}), env=env,
+                           stdout=subprocess.PIPE, stderr=subprocess.PIPE, text=True, timeout=120)
+    except subprocess.TimeoutExpired:
+        return "unpickling in another process timed out"
+    if r.returncode != 0:
+        return "unpickling in another process failed: %s" % r.stderr[-200:]
+    res = json.loads(r.stdout.strip().splitlines()[-1])
+    if not all(res.values()):
+        return "object pickled here and unpickled under another hash seed vs an independently built twin: %s" % res
+    return None
+
+
 class ValuesSuite(common.Suite):
     name = "values"
 
@@ -336,6 +402,9 @@ class ValuesSuite(common.Suite):
             {"kind": "type", "a": desc_key(["struct", [u8, ["void", 3]]]), "b": desc_key(["struct", [u8, ["void", 3]]])},
             {"kind": "attr", "a": {"type": desc_key(["farr", s1, 2]), "name": "x", "value": None}, "b": {"type": desc_key(["farr", s2, 2]), "name": "x", "value": None}},
             {"kind": "type", "a": desc_key(["prim", 8, "uintsat"]), "b": desc_key(["prim", 8, "byte"])},
+            {"kind": "type", "xproc": True, "a": desc_key(["struct", [u8, ["varr", s1, 3]]]), "b": desc_key(["struct", [u8, ["varr", s1, 3]]])},
+            {"kind": "type", "a": desc_key(["union", [["farr", ["prim", 3, "uintsat"], 3], ["prim", 16, "uintsat"]]]), "b": desc_key(["union", [["farr", ["prim", 3, "uintsat"], 3], ["prim", 16, "uintsat"]]])},
+            {"kind": "type", "a": desc_key(["struct", [["union", [["struct", [["prim", 5, "uintsat"]]], u8]], u8]]), "b": desc_key(["struct", [["union", [["struct", [["prim", 5, "uintsat"]]], u8]], u8]])},
             {"kind": "type", "a": desc_key(["void", 8]), "b": desc_key(["prim", 8, "uintsat"])},
         ]
 
@@ -369,6 +438,14 @@ class ValuesSuite(common.Suite):
             if al:
                 out["soft_alias"] = al
             pk = None if k == "bls" else (pickle_check(pydsdl, a) or pickle_check(pydsdl, b))
+            if k == "type":
+                nk = nested_check(pydsdl, a, case["a"]["ty"]) or nested_check(pydsdl, b, case["b"]["ty"])
+                if nk:
+                    out["nested_ok"] = False
+                    out["soft_nested"] = nk
+                # a deterministic sample of the cases also crosses a process boundary
+                if pk is None and (len(out["str_a"]) + case["a"]["ty"][0].__len__() + len(str(case["a"]["ty"]))) % 23 == 0 or case.get("xproc"):
+                    pk = cross_process_check(case["a"]["ty"], a)
             out["pickle_ok"] = pk is None
             if pk:
                 out["soft_pickle"] = pk
@@ -418,6 +495,8 @@ class ValuesSuite(common.Suite):
             return "accessor aliasing: %s" % impl.get("soft_alias")
         if not impl["pickle_ok"]:
             return "pickle: %s" % impl.get("soft_pickle")
+        if impl.get("nested_ok") is False:
+            return "aliasing: %s" % impl.get("soft_nested")
         k = case["kind"]
         if k == "type" or k == "attr":
             da = case["a"] if k == "type" else case["a"]["type"]
